@@ -1405,7 +1405,17 @@ func (st *State) txRun(fr *Frame, in ssa.CallInstruction, callee *ssa.Function, 
 	if fv == nil {
 		st.unsupported("transaction runner called with an unknown callback")
 	}
-	st.e.note(st.u.name, "intrinsic", "ent.Client."+name+" (transaction idiom)")
+	if callee == nil {
+		st.e.note(st.u.name, "contract", name+" (assumed: runs its argument once in a transaction of its own)")
+	} else {
+		st.e.note(st.u.name, "intrinsic", "ent.Client."+name+" (transaction idiom)")
+	}
+	// units that talk about transactions (module txspec) count them
+	for _, m := range st.u.c.Uses {
+		if m == "txspec" {
+			st.ghostSet("tx_epoch", nil, Add(st.ghostGet(st.heap, "tx_epoch", nil, SInt), IntLit(1)))
+		}
+	}
 	tables := map[string]*Term{}
 	for key, v := range st.heap.vers {
 		if strings.HasPrefix(key, "T|") {
@@ -1435,7 +1445,10 @@ func (st *State) txRun(fr *Frame, in ssa.CallInstruction, callee *ssa.Function, 
 		}
 	}
 	tx := st.allocRef()
-	ctx := args[1]
+	var ctx SVal
+	if len(args) > 1 {
+		ctx = args[1]
+	}
 	// arguments of the callback
 	var cbArgs []SVal
 	target := fv.Fn
